@@ -90,6 +90,38 @@ func Try(f func()) (p *PanicInfo) {
 	return nil
 }
 
+// TryBounded is Try with a termination bound for CPU-bound calls that cannot block on anything (decoders, parsers,
+// verifiers): f runs in its own goroutine and hung reports that it had not returned after limit. The limit is meant
+// to be orders of magnitude above the honest cost (milliseconds against tens of seconds), so that it decides "loops
+// without bound" and nothing else; a caller that sees hung must stop the process (the goroutine cannot be killed).
+func TryBounded(limit time.Duration, f func()) (p *PanicInfo, hung bool) {
+	done := make(chan *PanicInfo, 1)
+	go func() { done <- Try(f) }()
+	select {
+	case p = <-done:
+		return p, false
+	default:
+	}
+	tm := time.NewTimer(limit)
+	defer tm.Stop()
+	select {
+	case p = <-done:
+		return p, false
+	case <-tm.C:
+		return nil, true
+	}
+}
+
+// Hang reports a call that did not return: it prints the failure in the form the driver recognises, flushes the
+// evidence and ends the process (a spinning goroutine cannot be stopped, and shrinking would only multiply it).
+func Hang(r *Recorder, test, msg string) {
+	fmt.Printf("--- FAIL: %s (did not return)\n    %s\n", test, msg)
+	if r != nil {
+		r.Flush(1)
+	}
+	os.Exit(1)
+}
+
 // PanicSite returns a short "file:func" signature of the innermost frame of the
 // library under test in the stack (for known-finding signatures).
 func (p *PanicInfo) Site() string {
